@@ -61,8 +61,14 @@ JudgeRecovered(e) ==
          Tag(e.panicked \/ ~e.generated \/ e.sigClass = 1, "Inv.RecoveredIsUnique")
     ELSE Tag(~e.generated, "Recovered.belowThreshold")
 
+(* recoveries running at the same time give what they give alone *)
+JudgeConcurrentRecover(e) ==
+  Tag(e.mismatches = 0, "Inv.RecoveredIsUnique:concurrent") \o
+  Tag(e.verifyFailures = 0, "Inv.RecoveredVerifiesUnderGroupKey:concurrent")
+
 Judge(e) ==
   CASE e.event = "K"         -> JudgeK(e)
+    [] e.event = "ConcurrentRecover" -> JudgeConcurrentRecover(e)
     [] e.event = "DkgStart"  -> JudgeDkgStart(e)
     [] e.event = "Deliver"   -> JudgeDeliver(e)
     [] e.event = "DkgEnd"    -> JudgeDkgEnd(e)
